@@ -189,6 +189,8 @@ pub struct Engine {
     pub cmd: Vec<CommandBuffer>,
     pub cmd_spawns: Vec<usize>,
     pub cmd_counts: Vec<usize>,
+    /// a recorded command names a component type twice (its replay may panic, legitimately)
+    pub cmd_invalid: Vec<bool>,
     pub guards: crate::guard_engine::Guards,
 }
 
@@ -332,6 +334,7 @@ impl Engine {
             cmd: (0..2).map(|_| CommandBuffer::new()).collect(),
             cmd_spawns: vec![0, 0],
             cmd_counts: vec![0, 0],
+            cmd_invalid: vec![false, false],
             guards: Default::default(),
         }
     }
@@ -514,6 +517,7 @@ impl Engine {
             self.batch = (0..4).map(|_| None).collect();
             self.cmd = (0..2).map(|_| CommandBuffer::new()).collect();
             self.cmd_spawns = vec![0, 0];
+            self.cmd_invalid = vec![false, false];
             self.cmd_counts = vec![0, 0];
             self.emit(&mut obs, 0, &[], out);
             return obs;
